@@ -72,6 +72,8 @@ class Tools:
         shutil.copy2(os.path.join(common.BUILD, "ocaml", "stackbound", "run"), self.sbrun)
         self.names = [n.split("=")[0].strip() for n in vmcheck.opcode_names()]
         self.runs = 0
+        self.extent_bad = []      # (program, record, array, allocated bytes, configured bytes)
+        self.extent_checked = 0
 
     def close(self):
         shutil.rmtree(self.tmp, ignore_errors=True)
@@ -108,7 +110,12 @@ class Tools:
                 elif l.startswith("PREPARE"):
                     comp = 1000 + int(l.split()[1])
                 elif l.startswith("R "):
-                    recs.append(parse_rec(l))
+                    r = parse_rec(l)
+                    recs.append(r)
+                    for nm, got, want in r["extent"]:
+                        self.extent_checked += 1
+                        if got != want and not (want == 0 and 0 <= got <= 1):      # malloc(0)
+                            self.extent_bad.append((src, r, nm, got, want))
         self.runs += len(recs)
         return comp, recs
 
@@ -159,6 +166,12 @@ def parse_rec(line):
          "ret": None if f.get("ret", "-") == "-" else int(f["ret"]),
          "result": f.get("result", "-"), "nilcell": int(f.get("nilcell", 0)),
          "heap": tuple(int(x) for x in f.get("heap", "0,0,0").split(","))}
+    r["extent"] = []
+    if f.get("extent", "-") != "-":
+        for nm, pair in zip(("machine->stack", "collector->mem", "collector->wb_list[0]", "collector->wb_list[1]"),
+                            f["extent"].split(",")):
+            got, want = pair.split("/")
+            r["extent"].append((nm, int(got), int(want)))
     ip, sp, op = (f.get("last", "-1,-1,-1").split(",") + ["-1", "-1"])[:3]
     r["last_ip"], r["last_sp"], r["last_op"] = int(ip), int(sp), int(op)
     try:
@@ -400,6 +413,7 @@ def _run(ctx, T):
     P = [("corpus/" + WITNESS[k], open(os.path.join(CORPUS, WITNESS[k])).read(),
           open(wit[k]["stdin"]).read() if wit[k]["stdin"] else None, ["corpus", k]) for k in IRR]
     P += c14progs.stack_programs(ctx.tier, ctx.rng)
+    P += c14progs.twod_programs(ctx.tier, ctx.rng)
     exhaustive_upto = 140 if quick else 700
     rnd_sizes = 10 if quick else 60
     seeds = {p[0]: ctx.rng.randrange(1 << 30) for p in P}
@@ -448,6 +462,7 @@ def _run(ctx, T):
             return res
         D = pr["demand"]
         res["demand"], res["peak"], res["steps"] = D, peak, ref["steps"]
+        res["path"], res["sin"], res["ref"], res["src"] = path, sin, ref, src
         if D not in sizes:
             sizes = sorted(set(sizes) | {max(0, D - 1), D, D + 1})
             pr = T.predict(dump, trace, bits, sizes)
@@ -587,6 +602,47 @@ def _run(ctx, T):
                             "all_sizes_0..demand+": bool(res.get("exhaustive")), "bisected": res.get("bisect"),
                             "limit_hit_in": dict(res["limit_ops"])})
 
+    # ---- (c') both limits at once: heap size BELOW the stack size, stack just above the demand -------
+    # (one-dimensional sweeps keep the other limit huge and cannot see a size used for the wrong array)
+    def twod_case(res):
+        out = {"id": res["id"], "events": [], "runs": 0, "points": 0}
+        if "path" not in res or any(ev[0] in ("broken", "violation") for ev in res["events"]):
+            return out
+        D, ref = res["demand"], res["ref"]
+        mems = sorted({m for m in (D - 1, (3 * D) // 4, D // 2, D // 3, 100, 130) if 2 <= m < D})
+        pairs = [(m, D + 2) for m in mems] + [(m, D) for m in mems[-1:]]
+        _, recs = T.lim(res["path"], pairs, stdin=res["sin"])
+        out["runs"] = len(recs)
+        for r in recs:
+            rep = {"program": res["src"], "mem_size": r["mem"], "stack_size": r["stack"], "model_demand": D,
+                   "observed": brief(r), "replay": "limrun <program> %d:%d   (never -m %d -s %d -f <program>)" % (
+                       r["mem"], r["stack"], r["mem"], r["stack"])}
+            opn = T.opname(r["last_op"]).replace("BYTECODE_", "").lower()
+            if r["kind"] == "complete":
+                if not (r["out"] == ref["out"] and r["result"] == ref["result"] and r["steps"] == ref["steps"]):
+                    out["events"].append(("violation", "grid2d:size-changes-result",
+                                          "C14: %s differs at mem=%d stack=%d from the run under big limits" % (res["id"], r["mem"], r["stack"]), rep))
+                else:
+                    out["points"] += 1          # used more stack slots than there are heap cells, and completed
+            elif r["kind"] == "oom" and not r["nilcell"] and r["heap"][0] == 0 and r["heap"][1] == r["heap"][2] - 1 \
+                    and ref["out"].startswith(r["out"]):
+                pass
+            else:
+                out["events"].append(("violation", "grid2d:%s:%s" % (r["kind"], opn),
+                                      "C14: %s needs %d stack slots; with heap size %d and stack size %d: %s in %s at sp=%d (%s) instead of "
+                                      "a result or 'out of memory'" % (res["id"], D, r["mem"], r["stack"], r["kind"], T.opname(r["last_op"]),
+                                                                       r["last_sp"], first_line(r["err"], "SUMMARY") or r["status"]), rep))
+        return out
+
+    tres = vmcheck.pmap(twod_case, results, workers=16)
+    for o in tres:
+        stats["grid2d_runs"] += o["runs"]
+        stats["grid2d_points_completed_with_mem_below_stack_demand"] += o["points"]
+        if o["points"]:
+            nontrivial.add((o["id"], "mem<stack"))
+        for ev in o["events"]:
+            ctx.violation(ev[1], ev[2], ev[3])
+
     # ---- (d) heap ----------------------------------------------------------------------------------
     H = c14progs.heap_programs(ctx.tier, ctx.rng)
     mems = [1, 2, 3, 4, 5, 6, 7, 8, 9, 10, 12, 14, 16, 20, 24, 28, 30, 31, 32, 33, 34, 35, 36, 38, 40, 45, 50, 56, 64, 72, 80,
@@ -713,6 +769,24 @@ def _run(ctx, T):
         else:
             ctx.correspondence_broken("handler-skeleton:%s:%s" % (m.get("handler"), m["opcode"]), info)
 
+    # ---- vm_new really allocates what was configured (every run above was audited; plus a direct grid) ----
+    api = [(m, s_) for m in (1, 2, 3, 7, 50, 199, 200, 201, 1000, 5000) for s_ in (0, 1, 2, 36, 37, 199, 200, 201, 999, 5000, 20000)]
+    _, recs = T.lim(wit["alloc"]["src"], api)
+    stats["vm_new_extent_pairs"] = len(recs)
+    seen = set()
+    for src_, r, nm, got, want in T.extent_bad:
+        kind = "stack" if nm == "machine->stack" else "heap"
+        if kind in seen:
+            continue
+        seen.add(kind)
+        ctx.violation("vm_new:%s-array-extent" % kind,
+                      "C14: vm_new(%d, %d) allocates %d bytes for %s, configured are %d: the %s limit checked at run time is not the size of the array"
+                      % (r["mem"], r["stack"], got, nm, want, kind),
+                      {"program": open(src_).read(), "mem_size": r["mem"], "stack_size": r["stack"], "array": nm,
+                       "allocated_bytes": got, "configured_bytes": want, "mismatching_runs": len(T.extent_bad),
+                       "replay": "limrun <program> %d:%d  -> extent=<allocated>/<configured> for stack, mem, wb_list[0], wb_list[1]" % (r["mem"], r["stack"])})
+    ctx.notes["vm_new_extent_audited_arrays"] = T.extent_checked
+
     ctx.assumptions.append("heap size 0 / vm_new(0, ...) is outside the configured sizes: main.c maps -m 0 and -s 0 to the "
                            "defaults (5000 cells, 200 slots); heap sizes are tried from 1 (one cell = only nil: every program "
                            "must report out of memory), stack sizes from 0")
@@ -723,7 +797,9 @@ def _run(ctx, T):
         "stack: every size 0..demand+5 when the demand is <= %d, else minimum sizes + demand-7..demand+5 + %d seeded sizes + an independent "
         "bisection; heap: %d sizes from 1 upward; each run is compared with the extracted model's prediction (completes / limit at "
         "instruction i) and with the run under mem=%d stack=%d.  non-trivial = distinct (program, limit kind) where the limit fired at "
-        "least once AND the program completed at a larger size" % (exhaustive_upto, rnd_sizes, len(mems), MEM_BIG, STACK_BIG))
+        "least once AND the program completed at a larger size; two-dimensional points: heap size below the stack demand, stack = demand+2, on "
+        "every program, incl. a family that pushes one shared cell many times (completes with ~130 cells and hundreds of slots); every run audits "
+        "the byte size of the four arrays vm_new allocated against the configured sizes" % (exhaustive_upto, rnd_sizes, len(mems), MEM_BIG, STACK_BIG))
     ctx.coverage["distribution"] = {
         "stack_limit_reported_in_opcode": dict(limit_ops.most_common()),
         "counts": dict(stats),
